@@ -137,6 +137,7 @@ JudgeNum(M, res, inf, m) ==
     ELSE IF ~KeysExact(res) THEN "keys"
     ELSE LET c1 == NumClauses(M, res, res.x) IN
          IF c1 # "" THEN c1
+         ELSE IF m = "None" /\ inf.c = "multi" /\ VecSum(IntOf(res.x)) > inf.minsum THEN "not-minimal"
          ELSE IF m = "None" /\ inf.c # "ray_pos" THEN MinClause(M, res.x)
          ELSE ""
 
@@ -256,6 +257,21 @@ ChooseDupl(D) ==
     /\ LET pcm == PlacementClassMap(D)
        IN  info' = [info EXCEPT !.dtag = DuplTagOf(D, pcm), !.dcls = {pcm[pl] : pl \in DOMAIN pcm}]
     /\ UNCHANGED <<comp, nr, np, nk, crow, scale, filled, stage, mode, outcome>>
+
+(* A WITNESS: a positive integer vector claimed (by whoever poses the problem) to balance it.   *)
+(* The claim is checked here, exactly; a verified witness settles feasibility of a problem the  *)
+(* bounded searches left undecided (large null spaces), and its coefficient sum bounds the     *)
+(* minimal sum from above.  It cannot be enabled on a problem without positive solutions.      *)
+Witness(x) ==
+    /\ stage = "classified" /\ dupl = {}
+    /\ Len(x) = N /\ Balanced(A, x) /\ Positive(x)
+    /\ info.c \in {"undecided", "multi", "ray_pos"}
+    /\ info' = IF info.c = "undecided"
+               THEN [info EXCEPT !.c = "multi", !.sub = "witness", !.minsum = VecSum(x)]
+               ELSE IF info.c = "multi" /\ VecSum(x) < info.minsum
+                    THEN [info EXCEPT !.minsum = VecSum(x), !.mins = {}, !.complete = FALSE]
+                    ELSE info
+    /\ UNCHANGED <<comp, nr, np, nk, crow, scale, filled, stage, dupl, mode, outcome>>
 
 ChooseMode(m) ==
     /\ stage = "classified"
